@@ -123,7 +123,14 @@ func check(c Case) (pbt.Info, error) {
 			if l.Size() != len(m) || l.Empty() != (len(m) == 0) {
 				return fmt.Errorf("%s step %d %s: Size()=%d Empty()=%v, model length %d", names[li], step, what, l.Size(), l.Empty(), len(m))
 			}
+			stride := 1
+			if len(m) > 64 {
+				stride = len(m)/24 + 1 // long lists: a sample of the interior plus both ends
+			}
 			for i := -2; i <= len(m)+1; i++ {
+				if stride > 1 && i > 3 && i < len(m)-4 && i%stride != 0 {
+					continue
+				}
 				v, ok := l.Get(i)
 				if i >= 0 && i < len(m) {
 					if !ok || v != m[i] {
@@ -133,7 +140,7 @@ func check(c Case) (pbt.Info, error) {
 					return fmt.Errorf("%s step %d %s: Get(%d)=(%d,%v) out of range, want (0,false)", names[li], step, what, i, v, ok)
 				}
 			}
-			for v := -1; v <= domainHi+1; v++ {
+			for v := -4; v <= 13; v++ {
 				if got, want := l.IndexOf(v), slices.Index(m, v); got != want {
 					return fmt.Errorf("%s step %d %s: IndexOf(%d)=%d, want %d in %v", names[li], step, what, v, got, want, m)
 				}
@@ -329,8 +336,63 @@ func gen(t *rapid.T) Case {
 	return c
 }
 
+// genLong: lists of hundreds of elements — capacity thresholds 64/128/256/512 of
+// the array list (grow x2, shrink at 25%), Insert/Add of up to 200 values at
+// once, removal runs of up to 300, far-apart Swap positions, values incl. negatives.
+func genLong(t *rapid.T) Case {
+	var c Case
+	big := func(label string, lo, hi int) []int {
+		return rapid.SliceOfN(rapid.IntRange(-3, 12), lo, hi).Draw(t, label)
+	}
+	c.Init = big("init", 0, 140)
+	m := slices.Clone(c.Init)
+	for chunk := 0; chunk < 3; chunk++ {
+		n := rapid.IntRange(0, 10).Draw(t, "n")
+		for i := 0; i < n; i++ {
+			raw := rapid.IntRange(0, 1<<20).Draw(t, "raw")
+			var op Op
+			switch dom.Weighted(t, "op", 1, 6, 4, 8, 4, 4, 2, 3, 1, 8, 6) {
+			case 0:
+				continue
+			case 1:
+				op = Op{O: "add", Vs: big("vs", 30, 200)}
+			case 2:
+				op = Op{O: "prepend", Vs: big("vs", 10, 90)}
+			case 3:
+				op = Op{O: "insert", I: dom.WildIndex(raw, len(m)), Vs: big("vs", 1, 130)}
+			case 4:
+				op = Op{O: "set", I: dom.WildIndex(raw, len(m)), V: rapid.IntRange(-3, 12).Draw(t, "v")}
+			case 5:
+				op = Op{O: "swap", I: dom.WildIndex(raw, len(m)), J: dom.WildIndex(rapid.IntRange(0, 1<<20).Draw(t, "raw2"), len(m))}
+			case 6:
+				op = Op{O: "sort", C: []string{dom.Nat, dom.Rev, dom.Half, dom.Mag}[rapid.IntRange(0, 3).Draw(t, "cmp")]}
+			case 7:
+				op = Op{O: "contains", Vs: big("probe", 0, 4)}
+			case 8:
+				op = Op{O: "clear"}
+			case 9: // a run of removals at one (relative) position: front, back or middle
+				k := rapid.IntRange(5, 300).Draw(t, "k")
+				where := rapid.IntRange(0, 2).Draw(t, "where")
+				for j := 0; j < k && len(m) > 0; j++ {
+					idx := []int{0, len(m) - 1, len(m) / 2}[where]
+					rop := Op{O: "remove", I: idx}
+					c.Ops = append(c.Ops, rop)
+					m = applyModel(m, rop)
+				}
+				continue
+			case 10:
+				op = Op{O: "remove", I: dom.WildIndex(raw, len(m))}
+			}
+			c.Ops = append(c.Ops, op)
+			m = applyModel(m, op)
+		}
+	}
+	return c
+}
+
 func TestGenerated(t *testing.T) {
 	pbt.Run(t, pbt.Target[Case]{Name: "three-lists", Checks: 40000, Gen: gen, Check: check})
+	pbt.Run(t, pbt.Target[Case]{Name: "three-lists/long", Checks: 600, Gen: genLong, Check: check})
 }
 
 // TestExhaustive enumerates, for every initial length 0..4, every single
